@@ -23,6 +23,16 @@ TraceNext ==
   /\ ti' = ti + 1
   /\ LET ev == T[ti] IN
      IF ev.e = "Reset" THEN ResetA(ev.g)
+     ELSE IF ev.e = "Bulk" THEN                     \* n sequential puts before the contexts run: all succeed (n < len - 1 from an empty ring)
+          /\ ev.n >= 0 /\ ev.n < geo.len - 1 /\ readi = writei
+          /\ writei' = (writei + ev.n) % geo.len /\ ev.w = writei' /\ ev.r = readi
+          /\ putSeq' = [i \in 1..ev.n |-> ((i - 1) * 7 + 1) % 256]
+          /\ mem' = [j \in 0..(geo.len - 1) |-> LET k == (j + geo.len - readi) % geo.len IN IF k < ev.n THEN (k * 7 + 1) % 256 ELSE mem[j]]
+          /\ UNCHANGED <<geo, readi, pcP, iP, lw, nw, pcC, iC, lr, stack, gotSeq, obs>>
+     ELSE IF ev.e = "Drain" THEN                    \* sequential drain at the end: everything published comes out, in order, then -1
+          /\ ev.ok = 1 /\ ev.got = Len(putSeq) - 2 - Len(gotSeq)
+          /\ ev.tail = <<putSeq[Len(putSeq) - 1], putSeq[Len(putSeq)], -1>>
+          /\ UNCHANGED vars
      ELSE /\ ev.e = "S"
           /\ ev.c \in {0, 1}
           /\ Step(ev.c)
